@@ -952,6 +952,19 @@ func (ex *exec) binop(st *State, op token.Token, t types.Type, l, r *Term, pos t
 // operation is an uninterpreted function constrained by the facts the Fiat code needs.
 func (ex *exec) intBitop(st *State, op token.Token, w int, signed bool, l, r *Term, pos token.Pos) *Term {
 	if signed {
+		// two's complement: x & (2^k - 1) is x mod 2^k (Euclidean, non-negative) for every signed x
+		if op == token.AND {
+			c, v := r, l
+			if l.IsConst() && !r.IsConst() {
+				c, v = l, r
+			}
+			if c.IsConst() && c.Val.Sign() >= 0 {
+				d := new(big.Int).Add(c.Val, big.NewInt(1))
+				if new(big.Int).And(d, c.Val).Sign() == 0 {
+					return IntMod(v, IntC(d))
+				}
+			}
+		}
 		ex.fail(pos, "signed bit operation in int mode")
 	}
 	M := mask(w)
